@@ -114,12 +114,15 @@ def propagation(c, state, win):
 
 @harness(P, per_job=True, params=lambda tier: [dict(win=w_, flavours=f) for w_ in ([(362, 0, 0, 2, 2), (361, 9, 4, 2, 2)] if tier == "quick" else
                                                                                [(362, 0, 0, 2, 2), (361, 9, 4, 2, 2), (361, 10, 0, 2, 2), (270, 31, 31, 3, 3)])
-                                               for f in (("sync", "sync"), ("async", "sync"))], max_steps=3000000,
+                                               for f in (("sync", "sync"), ("async", "sync"))] +
+         [dict(win=w_, flavours=("sync", "async"), stepping=True) for w_ in ([(361, 9, 4, 2, 2)] if tier == "quick" else [(361, 9, 4, 2, 2), (362, 0, 0, 2, 2), (361, 10, 0, 2, 2)])],
+         max_steps=3000000,
          bounds="a history of two protect calls on one KeyCache holding the root key, with a clock that ADVANCES: every read of time.time_ns() returns the next of four solver-chosen "
-         "non-decreasing instants inside a window of +-2 ticks around an L0 / L2 (thorough: also L1) boundary. Each emitted blob must name the interval containing one of the "
+         "non-decreasing instants inside a window of +-2 ticks around an L0 / L2 (thorough: also L1) boundary (jobs with stepping=True: the four instants are in ANY order - a "
+         "clock that is stepped back between or during calls). Each emitted blob must name the interval containing one of the "
          "instants read during its own call (so neither a remembered earlier answer nor a mix of two reads may leak into the key identifier)",
          outside="more than two calls; windows elsewhere (kernel_exact covers every single instant)", must_reach=("history: each blob names an interval containing an instant of its own call",))
-def propagation_history(c, win, flavours):
+def propagation_history(c, win, flavours, stepping=False):
     import dpapi_ng
     from dpapi_ng import _blob
 
@@ -128,7 +131,8 @@ def propagation_history(c, win, flavours):
 
     lo, hi = e2e.window(*win)
     times = [c.int(f"t{i}", lo, hi) for i in range(4)]
-    c.assume(all_of([times[i] <= times[i + 1] for i in range(3)]))
+    if not stepping:
+        c.assume(all_of([times[i] <= times[i + 1] for i in range(3)]))
     state = {"i": 0, "reads": []}
 
     def clock():
